@@ -27,10 +27,11 @@ Theorem src_apen_maximum_distance_agrees : forall x y : list Z,
   src_apen_maximum_distance x y = match combine x y with [] => Raise ValueError | _ => Ok (max_dist x y) end.
 Proof.
   intros x y. cbv beta zeta delta [src_apen_maximum_distance Apen.max_dist]. rewrite ?bind_ok_id19.
+  match goal with |- context [map ?f (combine x y)] =>
+    rewrite (map_ext f (fun p => Z.abs (fst p - snd p))) by (intros [u v]; cbn [fst snd]; lia) end.
   destruct (combine x y) as [|[a b] l]; [reflexivity|].
   cbn [map src_max_list fold_right fst snd]. f_equal.
-  rewrite fold_left_right_max, fold_right_max_0 by lia.
-  f_equal. f_equal. apply map_ext. intros [u v]. reflexivity.
+  rewrite fold_left_right_max, fold_right_max_0 by lia. reflexivity.
 Qed.
 
 (* ---- comprehensions that cannot raise on their inputs *)
@@ -85,16 +86,16 @@ Theorem src_apen_windows_agrees : forall (U : list Z) (m : nat),
   src_apen_windows U (Z.of_nat (length U)) (Z.of_nat m) = Ok (xwindows m U).
 Proof.
   intros U m. cbv beta zeta delta [src_apen_windows Apen.xwindows Apen.nwin Apen.window]. rewrite ?bind_ok_id19.
-  assert (Hr : src_range 0 (Z.of_nat (length U) - Z.of_nat m + 1) = map Z.of_nat (seq 0 (length U + 1 - m))).
-  { unfold src_range. replace (Z.to_nat (Z.of_nat (length U) - Z.of_nat m + 1 - 0)) with (length U + 1 - m)%nat by lia.
-    apply map_ext. intros t. lia. }
-  rewrite Hr. clear Hr.
+  match goal with |- context [src_range 0 ?b] =>
+    assert (Hr : src_range 0 b = map Z.of_nat (seq 0 (length U + 1 - m)));
+    [unfold src_range; replace (Z.to_nat (b - 0)) with (length U + 1 - m)%nat by lia;
+     apply map_ext; intros t; lia | rewrite Hr; clear Hr] end.
   set (F := fun i : Z => _).
   rewrite (src_mapm_ok F (fun i => firstn m (skipn (Z.to_nat i) U))).
   - f_equal. rewrite map_map. apply map_ext. intros k. now rewrite Nat2Z.id.
   - intros i Hi. apply in_map_iff in Hi. destruct Hi as (k & <- & Hk). apply in_seq in Hk.
     unfold F. rewrite ?bind_ok_id19.
-    replace (Z.of_nat k + Z.of_nat m - 1 + 1) with (Z.of_nat (k + m)) by lia.
+    match goal with |- context [src_range (Z.of_nat k) ?b] => replace b with (Z.of_nat (k + m)) by lia end.
     rewrite src_range_nat.
     rewrite (src_mapm_ok _ (fun j => nth (Z.to_nat j) U 0)).
     + rewrite map_map, Nat2Z.id. f_equal.
@@ -109,7 +110,8 @@ Theorem src_apen_count_agrees : forall (xs : list (list Z)) (xi : list Z) (r : Z
 Proof.
   intros xs xi r H. cbv beta zeta delta [src_apen_count Apen.match_count].
   rewrite (src_filterm_ok _ (fun xj => max_dist xi xj <=? r)).
-  - cbn [bind]. now rewrite map_length.
+  - cbn [bind]. now rewrite ?map_length.
   - intros xj Hj. rewrite src_apen_maximum_distance_agrees.
-    rewrite Forall_forall in H. specialize (H xj Hj). destruct (combine xi xj); [congruence|reflexivity].
+    rewrite Forall_forall in H. specialize (H xj Hj). destruct (combine xi xj); [congruence|].
+    cbn [bind]. first [reflexivity | f_equal; lia].
 Qed.
